@@ -172,7 +172,7 @@ Lemma add_chain now j r c : let '(c', sgs) := add now j r c in
   if (r_ttl r =? 0)%N then Chain (view_of c) sgs (view_of c')
   else sgs = [] /\ forall k, has_srv k (view_of c) -> has_srv k (view_of c').
 Proof.
-  unfold add, view_of. pose proof (scan_entries r [] (c_entries c)) as SE.
+  unfold add, view_of. rewrite rearm_match. pose proof (scan_entries r [] (c_entries c)) as SE.
   destruct (scan r [] (c_entries c)) as [kept sg] eqn:E. pose proof (scan_chain r _ _ _ _ E) as SC. cbn [app fst] in *.
   destruct (r_ttl r =? 0)%N.
   - cbn [c_entries]. exact (proj1 SC).
